@@ -7,6 +7,7 @@ import (
 	"fmt"
 	"net/http"
 	"strings"
+	"sync"
 	"testing"
 
 	"github.com/PapaCharlie/go-restli/v2/restli"
@@ -14,8 +15,10 @@ import (
 	"pgregory.net/rapid"
 
 	"verif/HARNESS/dyn"
+	"verif/core/aval"
 	"verif/core/hx"
 	"verif/core/kf"
+	"verif/core/schema"
 	"verif/core/stats"
 )
 
@@ -30,7 +33,7 @@ func ip(i int32) *int32    { return &i }
 func genErrM(rt *rapid.T) *dyn.ErrM {
 	e := &dyn.ErrM{}
 	text := func(label string) *string {
-		return sp(rapid.SampledFrom([]string{"boom", "", "not found: é(x),y:'z'%", "line1\nline2", "\"quoted\"\\", "a very long message " + strings.Repeat("x", 300)}).Draw(rt, label))
+		return sp(rapid.SampledFrom([]string{"boom", "", "not found: é(x),y:'z'%", "line1\nline2", "\"quoted\"\\", "a very long message " + strings.Repeat("x", 300), "a message longer than a network read buffer " + strings.Repeat("0123456789abcdef", 600) + " END"}).Draw(rt, label))
 	}
 	if rapid.IntRange(0, 3).Draw(rt, "hasStatus") > 0 {
 		e.Status = ip(int32(rapid.SampledFrom([]int{400, 401, 403, 404, 409, 412, 422, 429, 500, 501, 503, 599}).Draw(rt, "status")))
@@ -63,6 +66,73 @@ func genErrM(rt *rapid.T) *dyn.ErrM {
 	// root module: its ErrorResponse has only status / message / exceptionClass / stackTrace; the other fields cannot
 	// be returned by resource code there and are cleared (no-op for v2; the draws above stay the same)
 	return e.Restrict()
+}
+
+// poison puts an unserialisable item (the "unknown" enum constant, a union without member) into the first array or
+// map of enums / unions of the value; false when the type has no such position.
+func poison(t schema.Type, v *aval.V) bool {
+	bad := func(et schema.Type) *aval.V {
+		if et.Ref == nil {
+			return nil
+		}
+		switch n := S.Lookup(*et.Ref); {
+		case n.Kind == "enum":
+			return aval.Enum("")
+		case n.Kind == "union" && !n.HasNull:
+			return aval.Union("", nil)
+		}
+		return nil
+	}
+	switch {
+	case t.Array != nil:
+		if b := bad(*t.Array); b != nil {
+			v.Arr = append(v.Arr, b)
+			return true
+		}
+		if len(v.Arr) > 0 {
+			return poison(*t.Array, v.Arr[0])
+		}
+	case t.Map != nil:
+		if b := bad(*t.Map); b != nil {
+			v.Put("zz", b)
+			return true
+		}
+	case t.Ref != nil:
+		if n := S.Lookup(*t.Ref); n.Kind == "record" {
+			for _, f := range S.AllFields(n) {
+				if x, ok := v.Flds[f.Name]; ok && poison(f.Type, x) {
+					return true
+				}
+			}
+		}
+	}
+	return false
+}
+
+var (
+	poisonableOnce sync.Once
+	poisonableList []*dyn.MethodInfo
+)
+
+func poisonableActions() []*dyn.MethodInfo {
+	poisonableOnce.Do(func() {
+		for _, mi := range methods {
+			if mi.M.Kind != "ACTION" || mi.M.Return == nil {
+				continue
+			}
+			rt := *mi.M.Return
+			if (rt.Array != nil && rt.Array.Ref != nil) || (rt.Map != nil && rt.Map.Ref != nil) {
+				et := rt.Array
+				if et == nil {
+					et = rt.Map
+				}
+				if n := S.Lookup(*et.Ref); n.Kind == "enum" || (n.Kind == "union" && !n.HasNull) {
+					poisonableList = append(poisonableList, mi)
+				}
+			}
+		}
+	})
+	return poisonableList
 }
 
 func defaultStatus(mi *dyn.MethodInfo) int {
@@ -162,6 +232,15 @@ func checkErr(rec *stats.Recorder, c errCase) (msg string, known string) {
 		if d := diffErr(snapshot, dyn.ErrFromGo(errObj)); d != "" {
 			return fail("the error object returned by resource code was modified by the library: before/after %s", d)
 		}
+	case "unserialisable-result":
+		// the property enumerates errors, panics and nil entities; an entity the library cannot serialise is none of them, so
+		// only the floor is asserted here: the call fails with a failure status (the case is there for what follows it)
+		if err == nil {
+			return fail("the result could not be serialised but the client call succeeded with %s", hx.J(got))
+		}
+		if cp.Status < 400 {
+			return fail("the result could not be serialised but the HTTP status is %d", cp.Status)
+		}
 	case "plain-error", "panic", "nil-result":
 		if err == nil {
 			return fail("resource code failed (%s) but the client call succeeded with %s", c.Kind, hx.J(got))
@@ -207,6 +286,18 @@ func checkErr(rec *stats.Recorder, c errCase) (msg string, known string) {
 	if _, perr, _, _, _ := w.do(cfg, &probe, &dyn.Outcome{}, nil); perr != nil {
 		return fail("the server is not usable after the call: %v", perr)
 	}
+	// ... and a call that returns an entity must return exactly that entity (nothing of the earlier exchange may leak
+	// into a later response)
+	if pmi := dyn.FindMethod(S, "vr.single", "Get"); pmi != nil {
+		pcall := callCase{Call: dyn.Call{Resource: "vr.single", Method: "Get"}, Outcome: dyn.Outcome{Entity: validValue(*pmi.Entity)}, Mount: c.Mount, Config: cfg}
+		if pmi.Params != nil {
+			pcall.Call.Params = validValue(pmi.ParamsType())
+		}
+		pgot, perr, psl, _, _ := w.do(cfg, &pcall.Call, &pcall.Outcome, nil)
+		if m := judgeCall(pmi, &pcall, pgot, perr, psl); m != "" {
+			return fail("a get right after the call does not return its entity: %s", m)
+		}
+	}
 	return "", ""
 }
 
@@ -222,7 +313,7 @@ func TestC08Errors(t *testing.T) {
 	} else if hx.Replaying() {
 		t.Skip()
 	}
-	kinds := []string{"error-response", "error-response", "plain-error", "panic", "nil-result", "status-override", "default-status"}
+	kinds := []string{"error-response", "error-response", "plain-error", "panic", "nil-result", "status-override", "default-status", "unserialisable-result"}
 	rapid.Check(t, func(rt *rapid.T) {
 		mi := methods[pick(rt, len(methods), "method")]
 		var c errCase
@@ -239,6 +330,19 @@ func TestC08Errors(t *testing.T) {
 			c.Outcome = dyn.Outcome{Err: &dyn.ErrM{Plain: rapid.SampledFrom([]string{"disk on fire", "x", "bad: é \"q\" \\ \n nl", "disk is 100% full", "key a%2Fb not found", "%d %s %v %!", "%"}).Draw(rt, "plain")}}
 		case "panic":
 			c.Outcome = dyn.Outcome{Err: &dyn.ErrM{Panic: rapid.SampledFrom([]string{"kaboom", "index out of range [1]", "50% done %s"}).Draw(rt, "panic")}}
+		case "unserialisable-result":
+			// an action whose result cannot be serialised (an illegal enum constant / a union without member inside an
+			// array or map of the result): the failure happens after part of the response was written
+			ami := poisonableActions()
+			if len(ami) == 0 {
+				c.Kind = "default-status"
+				break
+			}
+			mi = ami[pick(rt, len(ami), "paction")]
+			c.Call = genCall(rt, g, mi)
+			v := g.Value(rt, *mi.M.Return, 1)
+			poison(*mi.M.Return, v)
+			c.Outcome = dyn.Outcome{Action: v}
 		case "nil-result":
 			// only methods that return something can return nil
 			if mi.M.Kind == "ACTION" || mi.Rest() == "update" || mi.Rest() == "delete" || (mi.Rest() == "partial_update" && !mi.M.ReturnEntity) {
